@@ -223,12 +223,12 @@ end field
 section order
 variable {K : Type*} [Field K] [LinearOrder K] [IsStrictOrderedRing K] {r : K → K}
 
-theorem _root_.GT.IsSqrt.abs_sq (hr : IsSqrt r) (x : K) : r |x ^ 2| = |x| := by
+theorem isSqrt_abs_sq (hr : IsSqrt r) (x : K) : r |x ^ 2| = |x| := by
   rw [abs_of_nonneg (sq_nonneg x), ← sq_abs x]
   exact hr.sq (abs_nonneg x)
 
-theorem _root_.GT.IsSqrt.abs_mul_self (hr : IsSqrt r) (x : K) : r |x * x| = |x| := by
-  rw [← sq]; exact hr.abs_sq x
+theorem isSqrt_abs_mul_self (hr : IsSqrt r) (x : K) : r |x * x| = |x| := by
+  rw [← sq]; exact isSqrt_abs_sq hr x
 
 /-- a pair `(x, y)` read off `x², xy, y²` as `(√|x²|, ±√|y²|)` with the sign of `xy` is the pair
 itself or its negative -/
@@ -237,8 +237,8 @@ theorem pair_sign (hr : IsSqrt r) (x y : K) :
     let y' := if x * y < 0 then -r |y ^ 2| else r |y ^ 2|
     (x' = x ∧ y' = y) ∨ (x' = -x ∧ y' = -y) := by
   intro x' y'
-  have hx : x' = |x| := hr.abs_sq x
-  have hy : r |y ^ 2| = |y| := hr.abs_sq y
+  have hx : x' = |x| := isSqrt_abs_sq hr x
+  have hy : r |y ^ 2| = |y| := isSqrt_abs_sq hr y
   simp only [x', y', hx, hy]
   rcases lt_trichotomy x 0 with hx0 | hx0 | hx0
   · right
